@@ -30,7 +30,6 @@ import (
 
 	"github.com/refraction-networking/uquic/internal/monotime"
 	"github.com/refraction-networking/uquic/internal/protocol"
-	"github.com/refraction-networking/uquic/internal/verifmc/canon"
 	"github.com/refraction-networking/uquic/internal/verifmc/explore"
 	"github.com/refraction-networking/uquic/internal/wire"
 )
@@ -176,6 +175,9 @@ type c16Gen struct {
 	phase   int // 0 open, 1 closing period running, 2 finished
 	closeAt int
 	outcome string
+	ocOp    explore.Op
+	ocRes   string
+	ocUnret int
 }
 
 func (in *c16Gen) nowT() monotime.Time { return c16TimeBase.Add(time.Duration(in.tick) * c16Tick) }
@@ -274,6 +276,7 @@ func (in *c16Gen) Ops() []explore.Op {
 func (in *c16Gen) Apply(op explore.Op) *explore.Fail {
 	g := in.g
 	in.frames, in.otherF = nil, 0
+	in.outcome = ""
 	for _, r := range in.run {
 		r.adds, r.rems, r.repl = 0, 0, 0
 	}
@@ -394,13 +397,7 @@ func (in *c16Gen) Apply(op explore.Op) *explore.Fail {
 			return fl
 		}
 	}
-	in.outcome = fmt.Sprintf("%s:%s new=%d unretired=%d pending=%d add=%d rem=%d", op.N, res, len(in.frames), unretired, len(in.pending), in.run[0].adds, in.run[0].rems)
-	if op.N == "setmax" {
-		in.outcome += fmt.Sprintf(" L=%d", op.A)
-	}
-	if in.otherF != 0 {
-		in.outcome += " other-frames"
-	}
+	in.ocOp, in.ocRes, in.ocUnret = op, res, unretired
 	return nil
 }
 
@@ -476,13 +473,24 @@ func (in *c16Gen) checkRoutes(op explore.Op) *explore.Fail {
 	return nil
 }
 
-func (in *c16Gen) Outcome() string { return in.outcome }
+// Outcome is formatted on demand (Apply runs many times per reported transition).
+func (in *c16Gen) Outcome() string {
+	if in.outcome != "" {
+		return in.outcome
+	}
+	oc := fmt.Sprintf("%s:%s new=%d unretired=%d pending=%d add=%d rem=%d", in.ocOp.N, in.ocRes, len(in.frames), in.ocUnret, len(in.pending), in.run[0].adds, in.run[0].rems)
+	if in.ocOp.N == "setmax" {
+		oc += fmt.Sprintf(" L=%d", in.ocOp.A)
+	}
+	if in.otherF != 0 {
+		oc += " other-frames"
+	}
+	return oc
+}
 
 func (in *c16Gen) Key() string {
 	var sb strings.Builder
-	sb.WriteString(canon.Dump(in.g, canon.Options{SkipField: func(typ, field string) bool {
-		return typ == "quic.connIDGenerator" && (field == "generator" || field == "connRunners" || field == "statelessResetter")
-	}}))
+	c16GenDump(&sb, in.g)
 	fmt.Fprintf(&sb, "|n=%d runners=%d t=%d lim=%d/%d hc=%v ph=%d ca=%d|%s|", in.idgen.n, len(in.g.connRunners), in.tick, in.limit, in.setmaxN, in.hc, in.phase, in.closeAt, in.ledger())
 	for _, p := range in.pending {
 		fmt.Fprintf(&sb, "%s@%d,", p.cid, p.at)
@@ -495,6 +503,7 @@ func (in *c16Gen) Key() string {
 
 func c16GenPart(name string, cfg c16GenCfg) explore.Part {
 	return explore.BFSPart(name, func(e explore.Env) explore.BFSSpec {
+		c16CheckLayout()
 		b, depth := c16GenBounds{capSeq: 7, maxT: 2, hcDelay: 1}, 5
 		if e.Thorough() {
 			b, depth = c16GenBounds{capSeq: 9, maxT: 3, hcDelay: 2, allSeq: true}, 7
